@@ -1,0 +1,396 @@
+//go:build verif
+
+package keeper
+
+// Contracts for the deductive checker in /verif (comment-only; compiled only with -tags verif).
+// C10: ERC20 <-> coin conversion keeps a 1:1 backed peg. Loaded together with zz_contracts_c19_verif.go (abstract view
+// of the erc20 store: e20_enable, e20_hook, tp_*, am_*, dm_*). Lib specs: verif/specs/c10/60_erc20_deps.spec
+// (bank_bal, bank_supply, evm_state, tok_bal, assumptions A-evm-nobank, A-evm-view, A-bank-exact, A-atomic).
+
+/*@
+alias MsgCC github.com/haqq-network/haqq/x/erc20/types.MsgConvertCoin
+alias MsgCE github.com/haqq-network/haqq/x/erc20/types.MsgConvertERC20
+alias TxResp github.com/haqq-network/haqq/x/evm/types.MsgEthereumTxResponse
+const glob_types_ModuleName string
+
+// ---- EVM access (see the end of this file for the contracts these are verified against)
+func (Keeper).BalanceOf
+    ensures value: result != nil && abi == glob_contracts_ERC20MinterBurnerDecimalsContract.ABI ==> *result == tok_bal(evm_state, contract, account)
+    ensures fresh_result: result != nil ==> fresh(result)
+func (Keeper).CallEVM
+    modifies evm_state
+    ensures view: !commit ==> evm_state == old(evm_state)
+    ensures ok: result.1 == nil ==> result.0 != nil && LogsNonNil(result.0)
+    // a reverted / failed execution is reported as an error
+    ensures executed: result.1 == nil ==> !tx_failed(result.0)
+    ensures err: result.1 != nil ==> result.0 == nil
+    ensures static: !commit && result.1 == nil && len(args) == 1
+            ==> result.0.Ret == evm_static(old(evm_state), from, contract, abi_pack1(abi, method, args[0]))
+func (Keeper).CallEVMWithData
+    modifies evm_state
+    ensures view: !commit ==> evm_state == old(evm_state)
+    ensures ok: result.1 == nil ==> result.0 != nil && LogsNonNil(result.0)
+    // a reverted / failed execution is reported as an error
+    ensures executed: result.1 == nil ==> !tx_failed(result.0)
+    ensures err: result.1 != nil ==> result.0 == nil
+    ensures static: !commit && result.1 == nil && contract != nil
+            ==> result.0.Ret == evm_static(old(evm_state), from, *contract, data)
+
+specfunc LogsNonNil(res *TxResp) bool = forall i int :: 0 <= i && i < len(res.Logs) ==> res.Logs[i] != nil
+// no log of the response carries the ERC20 Approval topic
+specfunc approval_topic() string = ehash_hex(keccak1(conv_Str_to_Slice_Int("Approval(address,address,uint256)")))
+specfunc NoApproval(res *TxResp) bool = res == nil
+        || (forall i int :: 0 <= i && i < len(res.Logs) ==> !(len(res.Logs[i].Topics) > 0 && res.Logs[i].Topics[0] == approval_topic()))
+
+// NOTE: log.Topics[0] is read without a length check: a log without topics (EVM opcode LOG0) makes the function panic
+// (#safe.index2, known finding F10b); the panic aborts the message, so the peg is not affected (A-atomic).
+func (Keeper).monitorApprovalEvent
+    requires logs: res != nil ==> LogsNonNil(res)
+    ensures clean: result == nil ==> NoApproval(res)
+    loop 1 invariant seen: res != nil && 0 <= #i && #i <= len(res.Logs)
+            && (forall j int :: 0 <= j && j < #i ==> !(len(res.Logs[j].Topics) > 0 && res.Logs[j].Topics[0] == approval_topic()))
+
+// ---- case 2.1: ERC20-origin pair, tokens -> coins. Tokens go into the module's escrow, the same amount of coins is
+// minted and handed to the receiver.
+func (Keeper).convertERC20NativeToken
+    let A = msg.Amount
+    let c = cone(pair.Denom, msg.Amount)
+    let tok = tp_addr(pair)
+    let M = glob_types_ModuleAddress
+    let mod = acc_of_module("erc20")
+    let rcv = acc_of_bytes(receiver)
+    requires msg: msg != nil && msg.Amount > 0
+    modifies bank_bal, bank_supply, evm_state
+    use entry ConeSingle(pair.Denom, msg.Amount)
+    // the receiver's coin balance re-read cannot differ from before + amount when the bank is exact (A-bank-exact)
+    unreachable return: return nil, errorsmod.Wrapf(#2
+    call CallEVMWithData requires token_call: from == sender && contract != nil && *contract == tok && commit
+    call CallEVMWithData requires nothing_yet: bank_bal == old(bank_bal) && bank_supply == old(bank_supply)
+    call MintCoins requires amount: moduleName == "erc20" && amt == c
+    call MintCoins requires escrow_read: ret(BalanceOf, 1, 0) != nil && ret(BalanceOf, 2, 0) != nil
+            && *ret(BalanceOf, 2, 0) == *ret(BalanceOf, 1, 0) + A
+    call MintCoins requires escrowed: tok_bal(evm_state, tok, M) == tok_bal(old(evm_state), tok, M) + A
+    call MintCoins requires transfer_true: unpackedRet.Value && ret(CallEVMWithData, 1, 1) == nil
+    call SendCoinsFromModuleToAccount requires amount: senderModule == "erc20" && recipientAddr == receiver && amt == c
+    call SendCoinsFromModuleToAccount requires minted: bank_supply == cadd(old(bank_supply), c)
+    ensures supply: result.1 == nil ==> bank_supply == cadd(old(bank_supply), c)
+    ensures balances: result.1 == nil ==> bank_bal == bal_move(bal_add(old(bank_bal), mod, c), mod, rcv, c)
+    ensures receiver: result.1 == nil ==> bank_bal[rcv][pair.Denom] == old(bank_bal)[rcv][pair.Denom] + A
+    ensures escrow: result.1 == nil ==> tok_bal(evm_state, tok, M) == tok_bal(old(evm_state), tok, M) + A
+    ensures no_approval: result.1 == nil ==> NoApproval(ret(CallEVMWithData, 1, 0))
+    ensures resp: (result.1 == nil) == (result.0 != nil)
+    ensures failed: result.1 != nil ==> (bank_supply == old(bank_supply) && bank_bal == old(bank_bal))
+            || (bank_supply == cadd(old(bank_supply), c) && bank_bal == bal_add(old(bank_bal), mod, c))
+            || (bank_supply == cadd(old(bank_supply), c) && bank_bal == bal_move(bal_add(old(bank_bal), mod, c), mod, rcv, c))
+
+// ---- case 1.1: coin-origin pair, coins -> tokens. Coins go into the module's escrow, the same amount of tokens is
+// minted to the receiver (checked by re-reading the receiver's token balance).
+func (Keeper).convertCoinNativeCoin
+    let A = msg.Coin.Amount
+    let c = cone(pair.Denom, msg.Coin.Amount)
+    let tok = tp_addr(pair)
+    let M = glob_types_ModuleAddress
+    let mod = acc_of_module("erc20")
+    let snd = acc_of_bytes(sender)
+    requires msg: msg != nil && msg.Coin.Amount > 0
+    // the pair was looked up by the denom of the coin (ConvertCoin: MintingEnabled(.., msg.Coin.Denom))
+    requires denom: msg.Coin.Denom == pair.Denom
+    modifies bank_bal, evm_state
+    use entry ConeSingle(pair.Denom, msg.Coin.Amount)
+    call SendCoinsFromAccountToModule requires amount: senderAddr == sender && recipientModule == "erc20" && amt == c
+    call SendCoinsFromAccountToModule requires first: evm_state == old(evm_state)
+    call CallEVM requires mint_call: from == M && contract == tok && commit && method == "mint" && len(args) == 2
+            && typeis(args[0], "github.com/ethereum/go-ethereum/common.Address")
+            && unbox(args[0], "github.com/ethereum/go-ethereum/common.Address") == receiver
+            && typeis(args[1], "*math/big.Int") && *unbox(args[1], "*math/big.Int") == A
+    call CallEVM requires escrowed: bank_bal == bal_move(old(bank_bal), snd, mod, c)
+    ensures escrow: result.1 == nil ==> bank_bal == bal_move(old(bank_bal), snd, mod, c) && clte(c, old(bank_bal)[snd])
+    ensures tokens: result.1 == nil ==> tok_bal(evm_state, tok, receiver) == tok_bal(old(evm_state), tok, receiver) + A
+    ensures tokens_read: result.1 == nil ==> ret(BalanceOf, 1, 0) != nil && ret(BalanceOf, 2, 0) != nil
+            && *ret(BalanceOf, 2, 0) == *ret(BalanceOf, 1, 0) + A
+    ensures resp: (result.1 == nil) == (result.0 != nil)
+    ensures failed: result.1 != nil ==> bank_bal == old(bank_bal) || bank_bal == bal_move(old(bank_bal), snd, mod, c)
+
+// ---- case 1.2: coin-origin pair, tokens -> coins. The sender's tokens are burned, the same amount of coins leaves the
+// escrow for the receiver; both sides are re-read and must have moved by exactly the amount.
+func (Keeper).convertERC20NativeCoin
+    let A = msg.Amount
+    let c = cone(pair.Denom, msg.Amount)
+    let tok = tp_addr(pair)
+    let M = glob_types_ModuleAddress
+    let mod = acc_of_module("erc20")
+    let rcv = acc_of_bytes(receiver)
+    requires msg: msg != nil && msg.Amount > 0
+    modifies bank_bal, evm_state
+    use entry ConeSingle(pair.Denom, msg.Amount)
+    call CallEVM requires burn_call: from == M && contract == tok && commit && method == "burnCoins" && len(args) == 2
+            && typeis(args[0], "github.com/ethereum/go-ethereum/common.Address")
+            && unbox(args[0], "github.com/ethereum/go-ethereum/common.Address") == sender
+            && typeis(args[1], "*math/big.Int") && *unbox(args[1], "*math/big.Int") == A
+    call CallEVM requires nothing_yet: bank_bal == old(bank_bal)
+    call SendCoinsFromModuleToAccount requires amount: senderModule == "erc20" && recipientAddr == receiver && amt == c
+    // the burn has been executed (without error) before coins leave the escrow; the token-side re-read follows the
+    // unescrow in this function (a failed re-read returns an error: A-atomic)
+    call SendCoinsFromModuleToAccount requires burned_first: ret(CallEVM, 1, 1) == nil
+    ensures unescrow: result.1 == nil ==> bank_bal == bal_move(old(bank_bal), mod, rcv, c) && clte(c, old(bank_bal)[mod])
+    ensures receiver: result.1 == nil ==> bank_bal[rcv][pair.Denom] == old(bank_bal)[rcv][pair.Denom] + A
+    ensures tokens: result.1 == nil ==> tok_bal(evm_state, tok, sender) == tok_bal(old(evm_state), tok, sender) - A
+    ensures tokens_read: result.1 == nil ==> ret(BalanceOf, 1, 0) != nil && ret(BalanceOf, 2, 0) != nil
+            && *ret(BalanceOf, 2, 0) == *ret(BalanceOf, 1, 0) - A
+    ensures resp: (result.1 == nil) == (result.0 != nil)
+    ensures failed: result.1 != nil ==> bank_bal == old(bank_bal) || bank_bal == bal_move(old(bank_bal), mod, rcv, c)
+
+// ---- case 2.2: ERC20-origin pair, coins -> tokens. Coins are escrowed, the module transfers the same amount of
+// escrowed tokens to the receiver (transfer must return true and the receiver's balance must have moved by exactly
+// the amount), then the escrowed coins are burned.
+func (Keeper).convertCoinNativeERC20
+    let A = msg.Coin.Amount
+    let c = cone(pair.Denom, msg.Coin.Amount)
+    let tok = tp_addr(pair)
+    let M = glob_types_ModuleAddress
+    let mod = acc_of_module("erc20")
+    let snd = acc_of_bytes(sender)
+    requires msg: msg != nil && msg.Coin.Amount > 0
+    requires denom: msg.Coin.Denom == pair.Denom
+    modifies bank_bal, bank_supply, evm_state
+    use entry ConeSingle(pair.Denom, msg.Coin.Amount)
+    call SendCoinsFromAccountToModule requires amount: senderAddr == sender && recipientModule == "erc20" && amt == c
+    call SendCoinsFromAccountToModule requires first: evm_state == old(evm_state)
+    call CallEVM requires transfer_call: from == M && contract == tok && commit && method == "transfer" && len(args) == 2
+            && typeis(args[0], "github.com/ethereum/go-ethereum/common.Address")
+            && unbox(args[0], "github.com/ethereum/go-ethereum/common.Address") == receiver
+            && typeis(args[1], "*math/big.Int") && *unbox(args[1], "*math/big.Int") == A
+    call CallEVM requires escrowed: bank_bal == bal_move(old(bank_bal), snd, mod, c)
+    call BurnCoins requires amount: moduleName == "erc20" && amt == c
+    call BurnCoins requires released_read: ret(BalanceOf, 1, 0) != nil && ret(BalanceOf, 2, 0) != nil
+            && *ret(BalanceOf, 2, 0) == *ret(BalanceOf, 1, 0) + A
+    call BurnCoins requires released: tok_bal(evm_state, tok, receiver) == tok_bal(old(evm_state), tok, receiver) + A
+    call BurnCoins requires transfer_true: unpackedRet.Value && ret(CallEVM, 1, 1) == nil
+    ensures supply: result.1 == nil ==> bank_supply == csub(old(bank_supply), c)
+    ensures balances: result.1 == nil ==> bank_bal == bal_sub(bal_move(old(bank_bal), snd, mod, c), mod, c) && clte(c, old(bank_bal)[snd])
+    ensures tokens: result.1 == nil ==> tok_bal(evm_state, tok, receiver) == tok_bal(old(evm_state), tok, receiver) + A
+    ensures no_approval: result.1 == nil ==> NoApproval(ret(CallEVM, 1, 0))
+    ensures resp: (result.1 == nil) == (result.0 != nil)
+    ensures failed: result.1 != nil ==> (bank_supply == old(bank_supply) && (bank_bal == old(bank_bal) || bank_bal == bal_move(old(bank_bal), snd, mod, c)))
+            || (bank_supply == csub(old(bank_supply), c) && bank_bal == bal_sub(bal_move(old(bank_bal), snd, mod, c), mod, c))
+
+// ------------------------------------------------------------------ store access and the enabling checks
+// leaf store accessors (KV store reads / deletes) over the abstract store view of zz_contracts_c19_verif.go
+func (Keeper).GetERC20Map
+    trusted
+    ensures (len(result) != 0) == am_has[erc20] && (am_has[erc20] ==> result == am_val[erc20])
+func (Keeper).GetDenomMap
+    trusted
+    ensures (len(result) != 0) == dm_has[denom] && (dm_has[denom] ==> result == dm_val[denom])
+func (Keeper).GetTokenPair
+    trusted
+    ensures result.1 ==> len(id) != 0 && tp_has[id] && result.0 == tp_val[id]
+    ensures len(id) != 0 && tp_has[id] ==> result.1
+func (Keeper).deleteTokenPair
+    trusted
+    modifies tp_has
+    ensures tp_has == upd(old(tp_has), id, false)
+func (Keeper).deleteERC20Map
+    trusted
+    modifies am_has
+    ensures am_has == upd(old(am_has), erc20, false)
+func (Keeper).deleteDenomMap
+    trusted
+    modifies dm_has
+    ensures dm_has == upd(old(dm_has), denom, false)
+func (Keeper).Logger
+    trusted
+    pure
+
+func (Keeper).DeleteTokenPair
+    modifies tp_has, am_has, dm_has
+    ensures tp_has == upd(old(tp_has), tp_id(tokenPair), false) && am_has == upd(old(am_has), tp_addr(tokenPair), false)
+            && dm_has == upd(old(dm_has), tokenPair.Denom, false)
+
+// the pair id registered for a token given by contract address (hex) or by denom
+func (Keeper).GetTokenPairID
+    let has = ite(is_hex_address(token), am_has[hex_to_addr(token)], dm_has[token])
+    let id = ite(is_hex_address(token), am_val[hex_to_addr(token)], dm_val[token])
+    ensures (len(result) != 0) == has
+    ensures has ==> result == id
+
+// nil error => conversion is enabled globally and for the registered pair of the token, the receiver is not a blocked
+// address, and (unless sender and receiver are the same account) bank transfers of the pair's coin are enabled
+func (Keeper).MintingEnabled
+    let has = ite(is_hex_address(token), am_has[hex_to_addr(token)], dm_has[token])
+    let id = ite(is_hex_address(token), am_val[hex_to_addr(token)], dm_val[token])
+    ensures global: result.1 == nil ==> e20_enable
+    ensures registered: result.1 == nil ==> has && tp_has[id] && result.0 == tp_val[id]
+    ensures pair_enabled: result.1 == nil ==> result.0.Enabled
+    ensures receiver_ok: result.1 == nil ==> !bank_blocked(k.bankKeeper, receiver)
+    ensures send_enabled: result.1 == nil ==> acc_of_bytes(sender) == acc_of_bytes(receiver)
+            || (exists cn Coin :: cn.Denom == result.0.Denom && bank_send_enabled(k.bankKeeper, ctx, cn))
+
+// ------------------------------------------------------------------ the two messages
+// MsgConvertCoin (also used by the bank-send wrapper and the IBC receive / ack / timeout callbacks): coins -> tokens.
+// Preconditions: the message passed ValidateBasic (positive amount); the denom index of the store is consistent (the
+// pair stored for a denom has that denom: established by RegisterCoin / RegisterERC20, which write the pair, the denom
+// index and the address index together); the coin denom is not itself a 40-hex-digit string (A-denom-nothex: such a
+// denom would be looked up in the ADDRESS index by GetTokenPairID).
+func (Keeper).ConvertCoin
+    let ctx = ctx_unwrap(goCtx)
+    let d = msg.Coin.Denom
+    let A = msg.Coin.Amount
+    let c = cone(msg.Coin.Denom, msg.Coin.Amount)
+    let rcv = hex_to_addr(msg.Receiver)
+    let sndb = addr_of_bech32(msg.Sender)
+    let snd = acc_of_bytes(addr_of_bech32(msg.Sender))
+    let mod = acc_of_module("erc20")
+    let P = old(tp_val[dm_val[msg.Coin.Denom]])
+    let tok = tp_addr(old(tp_val[dm_val[msg.Coin.Denom]]))
+    requires msg: msg != nil && msg.Coin.Amount > 0
+    requires nothex: !is_hex_address(msg.Coin.Denom)
+    requires denom_index: forall dd string :: dm_has[dd] && tp_has[dm_val[dd]] ==> tp_val[dm_val[dd]].Denom == dd
+    modifies bank_bal, bank_supply, evm_state, tp_has, am_has, dm_has
+    // dispatch: the enabling checks come first, the pair is the one registered for the denom, the branch follows the owner
+    call convertCoinNativeCoin requires checked: ret(MintingEnabled, 1, 1) == nil && pair == P && P.ContractOwner == 1
+    call convertCoinNativeCoin requires same: ctx == ctx_unwrap(goCtx) && msg == old(msg) && receiver == rcv && sender == sndb
+    call convertCoinNativeCoin requires untouched: bank_bal == old(bank_bal) && bank_supply == old(bank_supply) && evm_state == old(evm_state)
+    call convertCoinNativeERC20 requires checked: ret(MintingEnabled, 1, 1) == nil && pair == P && P.ContractOwner == 2
+    call convertCoinNativeERC20 requires same: ctx == ctx_unwrap(goCtx) && msg == old(msg) && receiver == rcv && sender == sndb
+    call convertCoinNativeERC20 requires untouched: bank_bal == old(bank_bal) && bank_supply == old(bank_supply) && evm_state == old(evm_state)
+    ensures enabled: result.1 == nil ==> old(e20_enable) && old(dm_has[msg.Coin.Denom]) && old(tp_has[dm_val[msg.Coin.Denom]]) && P.Enabled && P.Denom == d
+            && !bank_blocked(k.bankKeeper, eaddr_bytes(rcv))
+    // coin-origin pair: coins escrowed, receiver's tokens +A, supply untouched
+    ensures coin_origin: result.1 == nil && result.0 != nil && P.ContractOwner == 1 ==>
+            bank_bal == bal_move(old(bank_bal), snd, mod, c) && clte(c, old(bank_bal)[snd]) && bank_supply == old(bank_supply)
+            && tok_bal(evm_state, tok, rcv) == tok_bal(old(evm_state), tok, rcv) + A
+    // ERC20-origin pair: coins taken from the sender and burned, receiver's tokens +A
+    ensures erc20_origin: result.1 == nil && result.0 != nil && P.ContractOwner == 2 ==>
+            bank_bal == bal_sub(bal_move(old(bank_bal), snd, mod, c), mod, c) && clte(c, old(bank_bal)[snd])
+            && bank_supply == csub(old(bank_supply), c)
+            && tok_bal(evm_state, tok, rcv) == tok_bal(old(evm_state), tok, rcv) + A
+    ensures owner: result.1 == nil && result.0 != nil ==> P.ContractOwner == 1 || P.ContractOwner == 2
+    // nil error without response: the token contract no longer exists; the pair is unregistered and nothing is converted
+    ensures selfdestructed: result.1 == nil && result.0 == nil ==> bank_bal == old(bank_bal) && bank_supply == old(bank_supply)
+            && evm_state == old(evm_state) && !tp_has[tp_id(P)] && !dm_has[d] && !am_has[tok]
+    ensures store: result.0 != nil || result.1 != nil ==> tp_has == old(tp_has) && am_has == old(am_has) && dm_has == old(dm_has)
+    ensures failed: result.1 != nil ==> result.0 == nil
+
+// MsgConvertERC20: tokens -> coins. Preconditions: ValidateBasic (positive amount, hex contract address); the
+// address index of the store is consistent.
+func (Keeper).ConvertERC20
+    let ctx = ctx_unwrap(goCtx)
+    let A = msg.Amount
+    let tok = hex_to_addr(msg.ContractAddress)
+    let P = old(tp_val[am_val[hex_to_addr(msg.ContractAddress)]])
+    let c = cone(old(tp_val[am_val[hex_to_addr(msg.ContractAddress)]]).Denom, msg.Amount)
+    let d = old(tp_val[am_val[hex_to_addr(msg.ContractAddress)]]).Denom
+    let rcvb = addr_of_bech32(msg.Receiver)
+    let rcv = acc_of_bytes(addr_of_bech32(msg.Receiver))
+    let snd = hex_to_addr(msg.Sender)
+    let mod = acc_of_module("erc20")
+    let M = glob_types_ModuleAddress
+    requires msg: msg != nil && msg.Amount > 0 && is_hex_address(msg.ContractAddress)
+    requires addr_index: forall a EAddr :: am_has[a] && tp_has[am_val[a]] ==> tp_addr(tp_val[am_val[a]]) == a
+    modifies bank_bal, bank_supply, evm_state, tp_has, am_has, dm_has
+    call convertERC20NativeCoin requires checked: ret(MintingEnabled, 1, 1) == nil && pair == P && P.ContractOwner == 1
+    call convertERC20NativeCoin requires same: ctx == ctx_unwrap(goCtx) && msg == old(msg) && receiver == rcvb && sender == snd
+    call convertERC20NativeCoin requires untouched: bank_bal == old(bank_bal) && bank_supply == old(bank_supply) && evm_state == old(evm_state)
+    call convertERC20NativeToken requires checked: ret(MintingEnabled, 1, 1) == nil && pair == P && P.ContractOwner == 2
+    call convertERC20NativeToken requires same: ctx == ctx_unwrap(goCtx) && msg == old(msg) && receiver == rcvb && sender == snd
+    call convertERC20NativeToken requires untouched: bank_bal == old(bank_bal) && bank_supply == old(bank_supply) && evm_state == old(evm_state)
+    ensures enabled: result.1 == nil ==> old(e20_enable) && old(am_has[tok]) && old(tp_has[am_val[tok]]) && P.Enabled && tp_addr(P) == tok
+            && !bank_blocked(k.bankKeeper, rcvb)
+    // coin-origin pair: sender's tokens -A (burned), the same amount of coins leaves the escrow for the receiver
+    ensures coin_origin: result.1 == nil && result.0 != nil && P.ContractOwner == 1 ==>
+            bank_bal == bal_move(old(bank_bal), mod, rcv, c) && clte(c, old(bank_bal)[mod]) && bank_supply == old(bank_supply)
+            && bank_bal[rcv][d] == old(bank_bal)[rcv][d] + A
+            && tok_bal(evm_state, tok, snd) == tok_bal(old(evm_state), tok, snd) - A
+    // ERC20-origin pair: module's token escrow +A, the same amount of coins minted and handed to the receiver
+    ensures erc20_origin: result.1 == nil && result.0 != nil && P.ContractOwner == 2 ==>
+            bank_supply == cadd(old(bank_supply), c) && bank_bal == bal_move(bal_add(old(bank_bal), mod, c), mod, rcv, c)
+            && bank_bal[rcv][d] == old(bank_bal)[rcv][d] + A
+            && tok_bal(evm_state, tok, M) == tok_bal(old(evm_state), tok, M) + A
+    ensures owner: result.1 == nil && result.0 != nil ==> P.ContractOwner == 1 || P.ContractOwner == 2
+    ensures selfdestructed: result.1 == nil && result.0 == nil ==> bank_bal == old(bank_bal) && bank_supply == old(bank_supply)
+            && evm_state == old(evm_state) && !tp_has[tp_id(P)] && !dm_has[d] && !am_has[tok]
+    ensures store: result.0 != nil || result.1 != nil ==> tp_has == old(tp_has) && am_has == old(am_has) && dm_has == old(dm_has)
+    ensures failed: result.1 != nil ==> result.0 == nil
+
+// ------------------------------------------------------------------ the EVM hook
+// package-level error sentinels are registered (non-nil) at package initialisation
+const glob_types_ErrUndefinedOwner int
+axiom glob_types_ErrUndefinedOwner: glob_types_ErrUndefinedOwner != 0
+
+// A log of the processed EVM transaction causes a bank-side credit only if it has 3 topics, topic 0 is the ERC20
+// Transfer event of the module's ABI, the emitting address is a registered, enabled pair, the recipient topic is the
+// module address and the amount is positive; then exactly the log's amount of the pair's denom goes to the account of
+// the `from` topic, after a burn of the module's tokens (module-owned pair) or a mint (external pair).
+// PROPERTY (external pair): coins are minted only against tokens that have arrived in the module's escrow, i.e. after
+// the mint the coin supply of the pair is still covered by the module's token balance. The hook does not look at the
+// module's token balance at all (clause `backed` below): known finding F10.
+func (Keeper).PostTxProcessing
+    params k, ctx, msg, receipt
+    let M = glob_types_ModuleAddress
+    let erc20abi = glob_contracts_ERC20MinterBurnerDecimalsContract.ABI
+    let from = bytes_to_addr(ehash_bytes(log.Topics[1]))
+    let Q = len(log.Topics) == 3 && abi_event_name(erc20, log.Topics[0]) == "Transfer"
+            && am_has[log.Address] && tp_has[am_val[log.Address]] && pair == tp_val[am_val[log.Address]] && pair.Enabled
+            && bytes_to_addr(ehash_bytes(log.Topics[2])) == M && tokens != nil && *tokens > 0 && contractAddr == log.Address
+            && e20_enable && e20_hook
+    requires receipt: receipt != nil && (forall j int :: 0 <= j && j < len(receipt.Logs) ==> receipt.Logs[j] != nil)
+    modifies bank_bal, bank_supply, evm_state
+    ensures never_fails: result == nil
+    ensures disabled: !(e20_enable && e20_hook) ==> bank_bal == old(bank_bal) && bank_supply == old(bank_supply) && evm_state == old(evm_state)
+    ensures no_logs: len(receipt.Logs) == 0 ==> bank_bal == old(bank_bal) && bank_supply == old(bank_supply) && evm_state == old(evm_state)
+    loop 1 invariant idx: 0 <= #i && #i <= len(receipt.Logs) && e20_enable && e20_hook
+    loop 1 invariant untouched: #i == 0 ==> bank_bal == old(bank_bal) && bank_supply == old(bank_supply) && evm_state == old(evm_state)
+    call CallEVM requires qualifies: Q && pair.ContractOwner == 1
+    call CallEVM requires burn_call: from == M && contract == log.Address && commit && method == "burn" && len(args) == 1
+            && typeis(args[0], "*math/big.Int") && *unbox(args[0], "*math/big.Int") == *tokens
+    call MintCoins requires qualifies: Q && pair.ContractOwner == 2
+    call MintCoins requires amount: moduleName == "erc20" && amt == cone(pair.Denom, *tokens)
+    call MintCoins requires backed: bank_supply[pair.Denom] + *tokens <= tok_bal(evm_state, log.Address, M)
+    call SendCoinsFromModuleToAccount requires qualifies: Q
+    call SendCoinsFromModuleToAccount requires amount: senderModule == "erc20" && amt == cone(pair.Denom, *tokens)
+            && recipientAddr == eaddr_bytes(bytes_to_addr(ehash_bytes(log.Topics[1])))
+    call SendCoinsFromModuleToAccount requires preceded: err$1 == nil && (pair.ContractOwner == 1 || pair.ContractOwner == 2)
+
+// ------------------------------------------------------------------ IBC ack / timeout refund: convert the refunded coins
+func (Keeper).IsDenomRegistered
+    trusted
+    ensures result == dm_has[denom]
+
+// The coin refunded to the packet sender is converted by ConvertCoin from the sender to the sender's own EVM address,
+// for exactly the packet's coin; an error of the conversion is returned (the refund acknowledgement / timeout then fails
+// as a whole: A-atomic); without a conversion nothing changes.
+func (Keeper).ConvertCoinToERC20FromPacket
+    let snd = addr_of_bech32(data.Sender)
+    requires denom_index: forall dd string :: dm_has[dd] && tp_has[dm_val[dd]] ==> tp_val[dm_val[dd]].Denom == dd
+    modifies bank_bal, bank_supply, evm_state, tp_has, am_has, dm_has
+    call ConvertCoin requires refund: msg != nil && msg.Coin == ics20_sent_coin(data.Denom, data.Amount)
+            && hex_to_addr(msg.Receiver) == bytes_to_addr(snd) && acc_of_bytes(addr_of_bech32(msg.Sender)) == acc_of_bytes(snd)
+    call ConvertCoin requires untouched: bank_bal == old(bank_bal) && bank_supply == old(bank_supply) && evm_state == old(evm_state)
+    call ConvertCoin requires enabled: e20_enable && dm_has[msg.Coin.Denom]
+    let C = ics20_sent_coin(data.Denom, data.Amount)
+    let P = old(tp_val[dm_val[ics20_sent_coin(data.Denom, data.Amount).Denom]])
+    let c = cone(ics20_sent_coin(data.Denom, data.Amount).Denom, ics20_sent_coin(data.Denom, data.Amount).Amount)
+    // nil result: nothing happened, or the conversion of exactly the refunded coin succeeded (an error of ConvertCoin is
+    // never swallowed)
+    ensures propagated: result == nil ==> (bank_bal == old(bank_bal) && bank_supply == old(bank_supply) && evm_state == old(evm_state))
+            || (P.ContractOwner == 1 && bank_supply == old(bank_supply)
+                && bank_bal == bal_move(old(bank_bal), acc_of_bytes(snd), acc_of_module("erc20"), c)
+                && tok_bal(evm_state, tp_addr(P), bytes_to_addr(snd)) == tok_bal(old(evm_state), tp_addr(P), bytes_to_addr(snd)) + C.Amount)
+            || (P.ContractOwner == 2 && bank_supply == csub(old(bank_supply), c)
+                && tok_bal(evm_state, tp_addr(P), bytes_to_addr(snd)) == tok_bal(old(evm_state), tp_addr(P), bytes_to_addr(snd)) + C.Amount)
+    ensures skipped: !e20_enable ==> result != nil || (bank_bal == old(bank_bal) && bank_supply == old(bank_supply) && evm_state == old(evm_state))
+func (Keeper).OnTimeoutPacket
+    requires denom_index: forall dd string :: dm_has[dd] && tp_has[dm_val[dd]] ==> tp_val[dm_val[dd]].Denom == dd
+    modifies bank_bal, bank_supply, evm_state, tp_has, am_has, dm_has
+    call ConvertCoinToERC20FromPacket requires same: data == old(data) && bank_bal == old(bank_bal) && bank_supply == old(bank_supply) && evm_state == old(evm_state)
+    ensures propagated: result == ret(ConvertCoinToERC20FromPacket, 1, 0)
+func (Keeper).OnAcknowledgementPacket
+    params k, ctx, packet, data, ack
+    requires denom_index: forall dd string :: dm_has[dd] && tp_has[dm_val[dd]] ==> tp_val[dm_val[dd]].Denom == dd
+    modifies bank_bal, bank_supply, evm_state, tp_has, am_has, dm_has
+    call ConvertCoinToERC20FromPacket requires same: data == old(data) && bank_bal == old(bank_bal) && bank_supply == old(bank_supply) && evm_state == old(evm_state)
+    call ConvertCoinToERC20FromPacket requires error_ack: typeis(ack.Response, "*github.com/cosmos/ibc-go/v7/modules/core/04-channel/types.Acknowledgement_Error")
+    ensures success_ack: !typeis(ack.Response, "*github.com/cosmos/ibc-go/v7/modules/core/04-channel/types.Acknowledgement_Error")
+            ==> result == nil && bank_bal == old(bank_bal) && bank_supply == old(bank_supply) && evm_state == old(evm_state)
+@*/
